@@ -549,12 +549,28 @@ func (g *qgen) identList(min int) {
 }
 
 func (g *qgen) predUnary(depth int) {
+	if g.chance(40) {
+		// deep redundant parentheses
+		k := 3 + g.r.Intn(4)
+		for i := 0; i < k; i++ {
+			g.w("(")
+		}
+		g.predAtom()
+		for i := 0; i < k; i++ {
+			g.w(")")
+		}
+		return
+	}
 	if depth > 0 && g.chance(5) {
 		g.w("(")
 		g.pred(depth - 1)
 		g.w(")")
 		return
 	}
+	g.predAtom()
+}
+
+func (g *qgen) predAtom() {
 	l := g.label()
 	switch g.r.Intn(7) {
 	case 0, 1:
@@ -586,7 +602,7 @@ func (g *qgen) pred(depth int) {
 		case 2:
 			g.w(",")
 		default: // implicit and: only in front of an identifier
-			g.predUnary(0)
+			g.predAtom()
 			depth--
 			continue
 		}
@@ -842,6 +858,17 @@ func (g *qgen) modifier() {
 
 // operand of a binary operation (never a bare log selector)
 func (g *qgen) metric1(depth int) {
+	if g.chance(40) {
+		k := 3 + g.r.Intn(4)
+		for i := 0; i < k; i++ {
+			g.w("(")
+		}
+		g.metric(0)
+		for i := 0; i < k; i++ {
+			g.w(")")
+		}
+		return
+	}
 	if depth <= 0 {
 		switch g.r.Intn(4) {
 		case 0:
